@@ -571,6 +571,10 @@ func runC06(args []string) error {
 	aprogs := c06AssertPrograms() // type-assertion matrix: complete in every run
 	ecells := c06EntryCells()     // entry point x panic site x value: complete in every run
 	rprogs := c06ReachPrograms()  // callee kind x how the deferred function is reached x use x value: complete in every run
+	fprogs := c06FramePrograms(*seed) // declaration form of the frames unwound through x panic kind x recovering frame
+	frameID := func(i int) int {
+		return len(cases) + len(pool) + len(sessions) + len(aprogs) + len(ecells) + len(rprogs) + 1 + i
+	}
 	reachID := func(i int) int {
 		return len(cases) + len(pool) + len(sessions) + len(aprogs) + len(ecells) + 1 + i
 	}
@@ -605,6 +609,9 @@ func runC06(args []string) error {
 		for i, rp := range rprogs {
 			progs = append(progs, goProg{Name: fmt.Sprintf("c%05d", reachID(i)), Files: map[string]string{"main.go": rp.Src, "defs": asDefs(rp.Src)}})
 		}
+		for i, fp := range fprogs {
+			progs = append(progs, goProg{Name: fmt.Sprintf("c%05d", frameID(i)), Files: map[string]string{"main.go": fp.Src, "defs": asDefs(fp.Src)}})
+		}
 		var err error
 		refs, err = c06RefAll(progs, 10*time.Second)
 		refDone <- err
@@ -627,6 +634,9 @@ func runC06(args []string) error {
 	}
 	for i, rp := range rprogs {
 		ins = append(ins, c06ChildIn{ID: reachID(i), Src: rp.Src, Aux: true})
+	}
+	for i, fp := range fprogs {
+		ins = append(ins, c06ChildIn{ID: frameID(i), Src: fp.Src, Aux: true})
 	}
 	outs := c06RunChildren(ins, 4*time.Second)
 	tImpl := time.Since(t0)
@@ -831,6 +841,27 @@ func runC06(args []string) error {
 			sm.HarnessViolations = append(sm.HarnessViolations, refMismatch{ID: id, Region: "", Input: in, Impl: drift, Ref: "mechanism rule c06ReachYaegiEffective", Note: drift[0]})
 		}
 	}
+	// ---- declaration form of the frames a panic unwinds through: stdout, recovered %T/%v and end vs compiled Go
+	for i, fp := range fprogs {
+		id := frameID(i)
+		impl := outs[id]
+		ref := refs[fmt.Sprintf("c%05d", id)]
+		in := map[string]any{"shape": "frames", "inner": fp.Inner, "mid": fp.Mid, "recovered": fp.Mode, "kind": fp.Kind, "source": fp.Src}
+		sm.CaseIndex[fmt.Sprint(id)] = in
+		sm.Evaluations++
+		sm.RefComparisons++
+		sm.count("stream:frames")
+		sm.count("frames-inner:" + fp.Inner)
+		sm.count("frames-mid:" + fp.Mid)
+		sm.Distribution["frames-cells"] += fp.Cells
+		distinct.add("frames", fp.Src)
+		if d := c06FrameDiff(outcome{Stdout: impl.Stdout, End: impl.End}, ref); d != "" {
+			sm.RefMismatches = append(sm.RefMismatches, refMismatch{ID: id, Region: "", Input: in, Impl: outcome{Stdout: impl.Stdout, End: impl.End}, Ref: ref, Note: d})
+		}
+		if fp.Mode == "none" && !impl.IsPanicErr {
+			sm.HarnessViolations = append(sm.HarnessViolations, refMismatch{ID: id, Region: "", Input: in, Impl: impl, Ref: "contract: an unrecovered panic comes out of Eval as interp.Panic", Note: "end " + impl.End})
+		}
+	}
 	// ---- entry points x panic sites: every cell vs the contract; cells of finding import-init-panic-escapes vs today's behaviour
 	for i, c := range ecells {
 		id := entryID(i)
@@ -890,6 +921,7 @@ func runC06(args []string) error {
 		"session stream (c06_aux.go): one interpreter; named function, methods, closure / method value / literal in package variables, global state and host-held function values are used from later Evals and natively after each of 13 kinds of panicking Eval; compared step by step with the same session compiled; not evaluated in Coq",
 		"assert stream (c06_assert.go): failed type assertion as a run-time fault: operand static type x dynamic value x target (concrete, script interface with fewer/equal/more/other methods, host interface, empty interface) x single-value and comma-ok, complete matrix in every run, each cell vs compiled Go; the cells on which the unchanged tree already deviates are held to the recorded baseline c06AssertToday (behavioural, not a model); not evaluated in Coq",
 		"reach stream (c06_reach.go): recover in a callee of kind package-level function / value- and pointer-receiver method / literal (0 or 1 argument) reached by direct name, local variable, package variable, slice element, struct field, map element, parameter, function result, range variable, either deferred itself or called by a deferred literal, with a string panic, a fault or none; complete matrix in every run, each cell vs compiled Go; where the unchanged tree deviates (finding funcvalue-recover-anchor) the cell is held to the mechanism rule c06ReachYaegiEffective (frame where the value was taken); not evaluated in Coq; left out: function returning a package-level function, method expressions (yaegi cannot run them)",
+		"frames stream (c06_frames.go): call path plain function -> mid frame -> inner frame with the panic in the inner frame; declaration form of both frames (function, literal in a package variable, method with named / unnamed / blank value and pointer receiver, method value, method expression, function with blank parameters and named results, literal with a named result; every form in both positions in every run, pairing rotated by the seed) x panic kind (string, int, error, named string type, divide by zero, nil map write, index out of range) x recovered in the inner frame / the mid frame / the function on top / not at all; stdout, recovered value as %v (faults reduced to their class; %T printed but not compared: finding C06-repanic-wrap) and the end vs compiled Go; not evaluated in Coq; left out: function with unnamed parameters and named results (the unchanged tree misruns func f(int) (r int), not investigated)",
 		"entry stream (c06_entry.go): Eval, EvalWithContext, EvalPath, EvalPathWithContext, Compile+Execute, Compile+ExecuteWithContext, REPL x panic in main / init / package variable / deferred call / nested call / init and variable initialiser of an imported source package x string, error, fault; each cell in a child process against the contract (interp.Panic with the value, no Go panic on any goroutine, 1+1 afterwards); not evaluated in Coq",
 		"every case is also run as Eval(definitions); Eval(\"Main()\"); Eval(\"Probe()\") through Interpreter.Eval on one interpreter: same output, error of type interp.Panic, carried value (reflect.Value layers, kind) as predicted by Y, Probe() = 4242")
 	sm.DistinctNontriv = len(distinct)
